@@ -21,6 +21,7 @@ func addCase(c *Collector, class, op, obs string, nontrivial bool) {
 // followUps runs the operations reachable from a decoded value; every panic is a violation.
 func followUps(c *Collector, r *Rng, kind string, data []byte, d *decoded) {
 	rep := map[string]any{"kind": kind, "data": hx(data)}
+	inflight("follow-up operations (re-encode, Verify, Countersign0, Countersignature.Sign / Verify over the decoded value and its nested countersignatures, key conversion) on the value decoded from", kind, data)
 	panicFail := func(what string, p bool) {
 		if p {
 			c.Fail("C06/panic-followup/"+what, what+" panicked on a value returned by the "+kind+" decoder", rep)
@@ -136,9 +137,19 @@ func runC06(c *Collector, r *Rng, thorough bool) {
 	kinds := []string{"DSign1", "DSign1U", "DSignature", "DSignMsg", "DProt", "DUnprot", "DKey"}
 	var concIn []string
 	slow := 0
+	// a call that does not return ends the run: it is reported with its input, and nothing else can be trusted
+	defer func() {
+		if v := recover(); v != nil {
+			if _, ok := v.(hangAbort); !ok {
+				panic(v)
+			}
+		}
+	}()
 	timed := func(kind string, data []byte) decoded {
 		t0 := time.Now()
-		d := decodeCase(c, "decode/"+kind, kind, data)
+		var d decoded
+		inflight("decoding", kind, data)
+		withDeadline(c, "C06/hang", "decoding with the "+kind+" decoder", map[string]any{"kind": kind, "data": hx(data)}, func() { d = decodeCase(c, "decode/"+kind, kind, data) })
 		if el := time.Since(t0); el > 2*time.Second {
 			slow++
 			c.Fail("C06/slow", "decoding took "+el.String(), map[string]any{"kind": kind, "data": hx(data)})
@@ -264,6 +275,36 @@ func runC06(c *Collector, r *Rng, thorough bool) {
 			timed(kind, in)
 		}
 	}
+	// hash envelopes whose text parameters (259 preimage content type, 260 location) are unusual strings: media types
+	// with several parameters, separators only, very long values; through VerifyHashEnvelope and SignHashEnvelope
+	for _, txt := range []string{"text/plain", "text/plain; charset=utf-8", "text/plain; charset=utf-8; format=flowed", "a/b;x=1;y=2", "a/b;x=1;y=2;z=3;w=4", ";;;;", ";", "/", "a/", "/b", "a/b/c",
+		" a/b", "a/b ", "a/b;", "a/b;;", "a//b", "", strings.Repeat("a/b;x=1", 300), strings.Repeat(";", 2000), strings.Repeat("/", 2000), "ä/ö; ü=ß; é=è", "a/b\x00;c=d;e=f"} {
+		for _, l := range []int64{259, 260} {
+			pm := wMap(-1, wInt(1, -1), wInt(-7, -1), wInt(258, -1), wInt(-16, -1), wInt(l, -1), wTstr(txt, -1))
+			env := wTag(18, -1, wArr(-1, wBstr(pm.Ser(), -1), wMap(-1), wBstr(make([]byte, 32), -1), wBstr([]byte{1, 2, 3}, -1))).Ser()
+			rep := map[string]any{"data": hx(trimTo(env, 300)), "label": l, "text": trunc(txt, 80)}
+			withDeadline(c, "C06/hang", "VerifyHashEnvelope", rep, func() {
+				op, obs, _, _, p := execVerifyHE(&spyVerifier{alg: -7}, env)
+				if p {
+					c.Fail("C06/panic/VerifyHashEnvelope", "VerifyHashEnvelope panicked", rep)
+				}
+				addCase(c, "decode/VerifyHashEnvelope/text-parameters", op, obs, true)
+			})
+			withDeadline(c, "C06/hang", "SignHashEnvelope", rep, func() {
+				hp := cose.HashEnvelopePayload{HashAlgorithm: cose.AlgorithmSHA256, HashValue: make([]byte, 32)}
+				if l == 259 {
+					hp.PreimageContentType = txt
+				} else {
+					hp.Location = txt
+				}
+				if p, _ := protect(func() {
+					cose.SignHashEnvelope(nil, &spySigner{alg: -7, kind: SOk, sig: []byte{1}}, cose.Headers{Protected: cose.ProtectedHeader{cose.HeaderLabelAlgorithm: cose.AlgorithmES256}}, hp)
+				}); p {
+					c.Fail("C06/panic/SignHashEnvelope", "SignHashEnvelope panicked", rep)
+				}
+			})
+		}
+	}
 	// VerifyHashEnvelope as the 9th entry point
 	for i := 0; i < n; i++ {
 		t := genSign1Tagged(r, defaultCfg)
@@ -285,3 +326,25 @@ func runC06(c *Collector, r *Rng, thorough bool) {
 }
 
 func ones(n int) string { return strings.Repeat("01", n) }
+
+// hangAbort leaves a runner after a call did not return in time (its goroutine cannot be stopped)
+type hangAbort struct{}
+
+// withDeadline runs f and waits for it; if it does not return within 20 s the failure is recorded and the runner is
+// left through a panic(hangAbort{}) that the runner recovers.
+func withDeadline(c *Collector, key, what string, rep map[string]any, f func()) {
+	done := make(chan any, 1)
+	go func() {
+		defer func() { done <- recover() }()
+		f()
+	}()
+	select {
+	case v := <-done:
+		if v != nil {
+			panic(v)
+		}
+	case <-time.After(20 * time.Second):
+		c.Fail(key, what+" did not return within 20 s", rep)
+		panic(hangAbort{})
+	}
+}
